@@ -7,7 +7,7 @@ import math
 import numpy as np
 
 from checks import specgen as SG
-from checks.common import hash_tag, relayout, xf_build, xf_names, hermitian_exact_zero
+from checks.common import hash_tag, relayout, xf_build, xf_names, hermitian_exact_zero, si_cells
 from qmc import gen as G
 from qmc import oracle as O
 from qmc.loader import load
@@ -21,8 +21,8 @@ RULE = (
     "non-trivial = A non-zero; distinct = sha1(input, group)"
 )
 BOUNDS = {
-    "quick": "m,n<=4 and strongly rectangular shapes 2x6, 6x2, 2x7, 3x9, 9x3, 1x8, 8x1 (+ whole-matrix scalings 2^-40, 2^20, 2^30), all ranks, all compositions, values {4,2,1,1/2} (gap >= 2^-1 above threshold), 3 factor kinds; laws on 6x6 pairs of invertible factors per size n<=3; Moore on all n<=3 compositions x sign patterns",
-    "thorough": "m,n<=6, laws n<=5",
+    "quick": "m,n<=4 and strongly rectangular shapes 2x6, 6x2, 2x7, 3x9, 9x3, 1x8, 8x1 (+ whole-matrix scalings 2^-40, 2^20, 2^30), all ranks, all compositions, values {4,2,1,1/2} (gap >= 2^-1 above threshold), 3 factor kinds; laws on 6x6 pairs of invertible factors per size n<=3; Moore on all n<=3 compositions x sign patterns; exhaustive small-integer cells: all 2x2 over {0,1,-1,i,j,k}, 3x3 over {-1,0,1} (every 4th), 2x3/3x2 over {0,1,i,j} (every 4th); exhaustive Hermitian small-integer cells: diagonal over {-1,0,1}, off-diagonal over {0,1,-1,i,j,k}: all 2x2, every 3rd 3x3",
+    "thorough": "m,n<=6, laws n<=5; exhaustive small-integer cells in full (2x2 over {0,1,-1,i,j,k}, 3x3 over {-1,0,1}, 2x3/3x2 over {0,1,i,j}) and 3x3 over {-1,0,1,2} (every 16th); exhaustive Hermitian small-integer cells in full (2x2, 3x3: diagonal {-1,0,1}, off-diagonal {0,1,-1,i,j,k})",
 }
 THOROUGH_STREAMS = 8
 WALL_BUDGET = {"quick": 300, "thorough": 2400}
@@ -59,6 +59,13 @@ def cases(tier, seed):
             if max(m, n) > 4 and nm in ("rowgraded", "colgraded"):
                 continue  # grading 2^-9 per row reaches the rank threshold beyond 4 rows: borderline by construction, nothing to decide
             out.append({"key": f"rank/xf/{m}x{n}/{nm}", "grp": "rank", "m": m, "n": n, "vals": None, "kU": "xf", "kV": "xf", "xf": nm})
+    # exhaustive small-integer matrices (every matrix over a small alphabet: exact ties, exact dependencies, exactly invariant subspaces)
+    for m, n, names in si_cells(tier):
+        for nm in names:
+            out.append({"key": f"rank/si/{m}x{n}/{nm}", "grp": "rank", "m": m, "n": n, "vals": None, "kU": "xf", "kV": "xf", "xf": nm, "_fixed": True})
+    for n_, _n2, names in si_cells(tier, hermitian=True):
+        for nm in names:
+            out.append({"key": f"moore/si/n={n_}/{nm}", "grp": "moore", "n": n_, "xf": nm, "_fixed": True})
     # exactly Hermitian inputs with one EXACT zero eigenvalue: rank n-1, one non-zero null vector on each side
     for n_ in (8, 12, 32, 33):
         for where in ("last", "first", "diag"):
